@@ -37,6 +37,10 @@ ApplyEdit(E, ed) ==
     [] ed.kind = "block-enabled" -> [E EXCEPT !.blocks[ed.a].enabled = ~@]
     [] ed.kind = "swap-enabled" -> [E EXCEPT !.blocks[ed.a].rules[ed.b].enabled = ~@, !.blocks[ed.a].rules[ed.c].enabled = ~@]
     [] ed.kind = "lock-previous" -> [E EXCEPT !.outputs[ed.a].lockPrev = ~@]
+    \* locking the range of an input, or moving its bound, does not touch the value the variable already holds: a value is
+    \* clipped when it is assigned (SetInputs), and only then
+    [] ed.kind = "in-lock-range" -> [E EXCEPT !.inputs[ed.a].lockRange = ~@]
+    [] ed.kind = "in-max"      -> [E EXCEPT !.inputs[ed.a].max = Flip(@, ed.x, ed.ox)]
     [] ed.kind = "default"    -> [E EXCEPT !.outputs[ed.a].default = Flip(@, ed.x, ed.ox)]
 Init == cid \in 1..Len(Cases) /\ ek \in (IF EditMode THEN 1..Len(Cases[cid].edits) ELSE {0}) /\ inst = << [E |-> Cases[cid].engine, st |-> Fresh(Cases[cid].engine)] >> /\ cur = 1 /\ steps = <<>> /\ expect = <<>>
 DoSet     == \E r \in 1..Len(C.rows) : Upd(LAMBDA x : [x EXCEPT !.st = SetInputs(x.E, x.st, C.rows[r])]) /\ UNCHANGED cur /\ Log("set", r)
@@ -63,7 +67,9 @@ LastAct == IF steps = <<>> THEN "none" ELSE steps[Len(steps)].act
 NoLock(E) == \A o \in 1..Len(E.outputs) : ~E.outputs[o].lockPrev
 \* with lock-previous off the outputs of a processing step depend only on the inputs of that step
 HistoryFree == (LastAct = "process" /\ NoLock(inst[cur].E)) =>
-   LET x == inst[cur]  ref == Process(x.E, SetInputs(x.E, Fresh(x.E), x.st.inval)) IN
+   \* the reference starts from a fresh state holding the input values as the variables hold them now (a value is clipped when it is
+   \* assigned, not when the range is locked or moved afterwards)
+   LET x == inst[cur]  ref == Process(x.E, [Fresh(x.E) EXCEPT !.inval = x.st.inval]) IN
    \* (a disabled output variable keeps the value it had, C12; the rules of a disabled block are not evaluated)
    /\ \A o \in 1..Len(x.E.outputs) : x.E.outputs[o].enabled => x.st.outval[o] = ref.outval[o]
    /\ x.st.fuzzy = ref.fuzzy
